@@ -640,6 +640,9 @@ func RunCheck(o Options) int {
 	}
 	t0 := time.Now()
 	race := m.Race || (m.RaceThoroughOnly && o.Tier == "thorough")
+	if os.Getenv("VERIF_FORCE_RACE") != "" {
+		race = true // audit mode (never used by a registered command): any monitor under the race detector
+	}
 	bin := os.Getenv("VERIF_BIN") // set by ./check after building
 	if race {
 		bin = os.Getenv("VERIF_BIN_RACE")
